@@ -145,8 +145,10 @@ Definition RE (s : st) (r : rl) : Prop :=
 Lemma re_reach x : creach false Dag g F x -> RE (fst x) (snd x).
 Proof.
   induction 1 as [|[s r] [s' r'] Hr IH Hs]; simpl in *.
-  - unfold RE, rl_init. destruct (start_next Dag g) as [v|ts ch]; simpl; [|intros K; exfalso; apply K; reflexivity].
-    intros _. split; [reflexivity|]. split; [reflexivity|]. apply Permutation_refl.
+  - unfold RE, rl_init. destruct (start_next Dag g) as [v|ts ch]; simpl.
+    + intros _. split; [reflexivity|]. split; [reflexivity|]. apply Permutation_refl.
+    + unfold enter. destruct (existsb prefail ts); simpl; [|intros K; exfalso; apply K; reflexivity].
+      intros _. split; [reflexivity|]. split; [reflexivity|]. apply Permutation_refl.
   - pose proof (creach_reach _ _ _ _ _ Hr) as Rs. simpl in Rs.
     destruct (creach_ei g Hnd Hstart F _ Hr) as [_ L]. simpl in L.
     pose proof (creach_lkid g Hnd Hstart F _ Hr) as K. simpl in K.
@@ -196,7 +198,9 @@ Proof.
       { inversion Hq; subst. simpl. intros _. split; [exact Hc|]. split; [reflexivity|exact Pfin]. }
       destruct (calc_next Dag g (r_ch r) [run_task x]) as [v|ts ch'].
       { inversion Hq; subst. simpl. intros _. split; [exact Hc|]. split; [reflexivity|exact Pfin]. }
-      inversion Hq; subst. unfold enter. simpl. intros Hret. exfalso. apply Hret. reflexivity.
+      inversion Hq; subst. unfold enter. destruct (existsb prefail ts); simpl.
+      { intros _. split; [exact Hc|]. split; [reflexivity|exact Pfin]. }
+      intros Hret. exfalso. apply Hret. reflexivity.
 Qed.
 
 (* when an eager run returns - and ever after - the tasks the run loop still has in flight are
